@@ -197,6 +197,36 @@ Proof.
   - intros ch Hch. apply (Hstored sp ch); [eapply nth_error_In; eauto|exact Hch].
 Qed.
 
+(* ================= the look-up meets the declarative clause ================= *)
+Lemma Forall2_map_both {X Y X' Y'} (R : X -> Y -> Prop) (R' : X' -> Y' -> Prop) (f : X -> X') (g : Y -> Y') l1 l2 :
+  (forall a b, R a b -> R' (f a) (g b)) -> Forall2 R l1 l2 -> Forall2 R' (map f l1) (map g l2).
+Proof. intros H. induction 1; cbn [map]; constructor; auto. Qed.
+
+(* Spec (model input): in the regime where the property claims the look-up (queried channels other than -1
+   distinct, 0 x factor = 0) the model's answer satisfies Store_Spec at the positions [lpz ids x] (the last
+   occurrence of each queried id) *)
+Theorem store_meets_spec {A} (zero : A) (scale : A -> A) c (data : list (list A)) n spikes ids q_ids q_ch :
+  rect c data -> 1 <= n -> Forall (fun sp => chans_ok c (sp_ch sp)) spikes ->
+  Forall (fun x => 0 <= x) ids -> zlen ids = zlen spikes ->
+  Forall (fun x => In x ids) q_ids -> q_ch <> [] -> chans_ok c q_ch -> distinct_real q_ch -> scale zero = zero ->
+  exists out,
+    get_spike_waveforms zero q_ids q_ch
+      (mkstore ids (map sp_ch spikes) (scaled_windows zero scale data n spikes)) n = Some out /\
+    Store_Spec zero scale data n spikes (map (lpz ids) q_ids) q_ch out.
+Proof.
+  intros Hr Hn Hok Hids Hlen Hq Hne Hqc Hd Hz.
+  assert (Hqc' : Forall (fun ch => -1 <= ch) q_ch).
+  { unfold chans_ok in Hqc. eapply Forall_impl; [|exact Hqc]. cbv beta. intros; lia. }
+  destruct (store_lookup zero scale c data n spikes ids q_ids q_ch Hn Hok Hids Hlen Hq Hne Hqc') as (sps & H1 & H2).
+  eexists. split; [exact H2|]. unfold Store_Spec.
+  eapply Forall2_map_both; [|exact H1]. cbv beta.
+  intros x sp (p & Hp & Hlast & Hsp).
+  exists sp, (window zero data (sp_s sp) n q_ch). split; [|split].
+  - unfold lpz. rewrite (last_pos_of_nth ids p x Hp Hlast). now rewrite Nat2Z.id.
+  - apply (window_meets_spec zero c); auto. lia.
+  - rewrite (lookup_window_masked zero scale data n sp q_ch Hz Hd). apply masked_window_as_mask.
+Qed.
+
 (* ================= soundness of the comparator's boolean clauses ================= *)
 Section Sound.
 Variable scale : Z -> Z.
